@@ -47,9 +47,7 @@ Print Assumptions C19_dangling_iff.
 Theorem C19_reference_issues_once :
   forall r ts, r_corr r = false -> parse_all (r_conds r) = Ok ts ->
     (forall l, v_check VUnused r = Ok l -> NoDup l) /\ (forall l, v_check VDangling r = Ok l -> NoDup l).
-Proof.
-  intros r ts Hc Hp. split; intros l H; [exact (unused_once r ts l Hc Hp H) | exact (dangling_once r ts l Hc Hp H)].
-Qed.
+Proof. exact reference_issues_once. Qed.
 Print Assumptions C19_reference_issues_once.
 
 (* identifier, title and file-name issues name exactly the groups of (not excluded) rules that share
@@ -100,6 +98,21 @@ Theorem C19_only_reference_validators_raise :
     (v = VUnused \/ v = VDangling) /\ r_corr r = false /\ forall ts, parse_all (r_conds r) <> Ok ts.
 Proof. exact v_check_raises. Qed.
 Print Assumptions C19_only_reference_validators_raise.
+
+(* with distinct validator classes and distinct rule objects no issue is reported twice (so every
+   `In` above is "exactly once") *)
+Theorem C19_no_duplicates :
+  forall E vs rules l,
+    validate E vs rules = Ok l -> NoDup vs -> NoDup (map r_key rules) -> NoDup l.
+Proof. exact validate_NoDup. Qed.
+Print Assumptions C19_no_duplicates.
+
+(* the executable tests the specification oracle of the correspondence check is built from decide
+   the declarative notions used in the theorems above *)
+Theorem C19_oracle_atoms :
+  (forall p n, selectedb p n = true <-> Selected p n) /  (forall D n t, refersb D n t = true <-> Refers D t n) /  (forall t p, In p (sel_pats t) <-> HasSel t p) /  (forall D p, unmatchedb D p = true <-> Unmatched D p).
+Proof. exact oracle_atoms. Qed.
+Print Assumptions C19_oracle_atoms.
 
 (* non-vacuity: a collection on which every kind of issue arises *)
 Definition ex_rule (k : N) (i : option str) (t : str) (p : list str) (d : list str) (c : str) : rule :=
